@@ -7,6 +7,7 @@ godebug randseednop=0
 require (
 	github.com/gogo/protobuf v1.3.2
 	github.com/tendermint/tendermint v0.0.0
+	github.com/tendermint/tm-db v0.6.6
 )
 
 require (
@@ -29,7 +30,6 @@ require (
 	github.com/prometheus/common v0.32.1 // indirect
 	github.com/prometheus/procfs v0.8.0 // indirect
 	github.com/syndtr/goleveldb v1.0.1-0.20210819022825-2ae1ddf74ef7 // indirect
-	github.com/tendermint/tm-db v0.6.6 // indirect
 	golang.org/x/crypto v0.1.0 // indirect
 	golang.org/x/net v0.1.0 // indirect
 	golang.org/x/sys v0.1.0 // indirect
